@@ -120,6 +120,26 @@ def gen(chk):
             s.cycle(r, files, limits={"updates": updates})
             out.append(("root-updates", s, {"expect": "ok" if updates > chain else "maxupdates",
                                             "max_root_requests": updates}))
+    # (d2) the same over a shared datastore: an earlier cycle has followed some rotations (the datastore records a
+    # root newer than the shipped one); the limit of the later cycle still counts from the shipped root
+    for first_chain in (1, 2, 3):
+        for updates in (1, 2, 3, 4):
+            for later_chain in (first_chain, first_chain + updates, first_chain + updates + 3):
+                if first_chain >= updates:
+                    continue            # the first cycle itself must stay within the limit
+                s = scen.Scen()
+                r, ts, snap, tgt, files = repo_with(s)
+                roots = {v: s.root(version=v, sigs=scen.valid([0])) for v in range(2, later_chain + 2)}
+                f1 = dict(files)
+                for v in range(2, first_chain + 2):
+                    f1["%d.root.json" % v] = {"doc": roots[v]}
+                f2 = dict(files)
+                for v in range(2, later_chain + 2):
+                    f2["%d.root.json" % v] = {"doc": roots[v]}
+                s.cycle(r, f1, limits={"updates": updates})
+                s.cycle(r, f2, limits={"updates": updates})
+                out.append(("root-updates-history", s, {"expect": "history", "max_root_requests": updates,
+                                                        "later_expect": "ok" if updates > later_chain else "maxupdates"}))
     # (e) self- and mutual delegation
     for shape in ("self", "mutual", "self-deep"):
         s = scen.Scen()
@@ -260,6 +280,18 @@ def run(chk):
         if not (isinstance(impl, list) and impl and isinstance(impl[0], list)):
             # aborted / timeout
             chk.violation("update cycle did not terminate with success or an error: %s" % (impl[:2],), full)
+            continue
+        if exp["expect"] == "history":
+            for j, x in enumerate(impl):
+                roots_j = [r for r in clientrun.names(x[1]) if r.endswith(".root.json")]
+                if len(roots_j) > exp["max_root_requests"]:
+                    chk.violation("cycle %d: %d newer-root requests with max_root_updates=%d" % (
+                        j + 1, len(roots_j), exp["max_root_requests"]), full)
+            if exp["later_expect"] == "maxupdates" and impl[-1][0][0] == 0:
+                chk.violation("more newer roots were accepted than max_root_updates allows (second cycle)", full)
+            if exp["later_expect"] == "ok" and impl[-1][0][0] != 0:
+                chk.broken("expected success of the second cycle, got %s" % impl[-1][0], full)
+            clientrun.check_correspondence(chk, s, impl, model)
             continue
         res, log, store = impl[0][:3]
         if res[0] >= 900:
